@@ -574,8 +574,15 @@ func (f *FrameV1) Clone() Frame {
 	c.psDataOffset = f.psDataOffset
 
 	// Copy pooled slice to new pooled slice.
-	c.pooledSlice = f.builder.GetPooledSlice(len(c.pooledSlice))
-	copy(c.pooledSlice, f.pooledSlice)
+	if f.pooledSlice != nil {
+		c.pooledSlice = f.builder.GetPooledSlice(len(f.pooledSlice))
+		copy(c.pooledSlice, f.pooledSlice)
+	} else {
+		// Frame data is not backed by a pooled slice, copy data only.
+		c.psDataOffset = 0
+		c.pooledSlice = f.builder.GetPooledSlice(len(f.data))
+		copy(c.pooledSlice, f.data)
+	}
 
 	// Recreate correct data slice.
 	c.data = c.pooledSlice[c.psDataOffset : c.psDataOffset+len(f.data)]
